@@ -38,13 +38,14 @@ MeshClause(e, later) ==      \* later: the master's table at the next quiescence
   ELSE IF e.op = "lookup_address" THEN
        (LET want == IF e.arg = 0 THEN 0 ELSE IF ~Connected(e) THEN -2 ELSE IF ~PathOk(e.addrs, e.addr) THEN -1 ELSE Tab(e.table_before, e.arg) IN
         IF e.table # e.table_before THEN <<"C17.MasterUndisturbed", "a lookup changed the master's table">>
-        ELSE IF e.res = want \/ (Lossy /\ e.res = -1) THEN OK
+        ELSE IF e.res = want \/ (Lossy /\ e.res = -1) \/ (e.dups > 0 /\ e.res = -1) THEN OK    \* (an answer identical to the previous
+                                                                     \* packet with the same 2-bit PID is filtered by the radio itself)
         ELSE <<"C17.Lookup", "lookup_address(" \o ToString(e.arg) \o ") = " \o ToString(e.res) \o ", expected " \o ToString(want)>>)
   ELSE IF e.op = "lookup_node_id" THEN
        (LET want == IF e.arg = -999 THEN e.id ELSE IF e.arg = 0 THEN 0 ELSE IF ~Connected(e) THEN -2
                     ELSE IF ~PathOk(e.addrs, e.addr) THEN -1 ELSE IdOf(e.table_before, e.arg) IN
         IF e.table # e.table_before THEN <<"C17.MasterUndisturbed", "a lookup changed the master's table">>
-        ELSE IF e.res = want \/ (Lossy /\ e.res = -1) THEN OK
+        ELSE IF e.res = want \/ (Lossy /\ e.res = -1) \/ (e.dups > 0 /\ e.res = -1) THEN OK
         ELSE <<"C17.Lookup", "lookup_node_id(" \o ToString(e.arg) \o ") = " \o ToString(e.res) \o ", expected " \o ToString(want)>>)
   ELSE IF e.op = "release" THEN
        (IF e.wasconn /\ ~Lossy /\ e.res # 1 /\ PathOk(e.addrs_before, e.addr_before) THEN <<"C17.Release", "release_address() of a connected node returned False">>
